@@ -409,7 +409,7 @@ Section S.
     set (f3 := remove tmp' f2).
     assert (G3 : forall q, get f3 q = if path_eqb q tmp' then None else get f2 q).
     { intro q. apply (get_unlink f2 tmp' f3 q). unfold unlink. rewrite Htmp'2. reflexivity. }
-    set (w3 := set_fs w2 f3 [EvUnlink tmp']).
+    set (w3 := lock_move (set_fs w2 f3 [EvUnlink tmp']) fname (dst ++ [SPF])).
     (* re-initialisation through the last handle of the cell *)
     set (hl := last js 0%nat).
     assert (Hl_in : In hl js).
@@ -418,11 +418,11 @@ Section S.
       rewrite E. rewrite last_last. apply in_or_app. right. simpl. auto. }
     destruct (Hall hl Hl_in) as [Hl_lt [Hl_cell Hl_s]].
     assert (Hh3 : forall k, h_s (getH w3 k) = h_s (getH w k) /\ h_cell (getH w3 k) = h_cell (getH w k)).
-    { intro k. unfold w3. rewrite getH_set_fs, HgetH2. unfold w2c.
+    { intro k. unfold w3. rewrite getH_lock_move, getH_set_fs, HgetH2. unfold w2c.
       destruct (set_cached_fields js w2i (c_data c) k) as [A' [B' _]]. rewrite A', B'. unfold w2i.
       destruct (set_ids_fields js wa new k) as [A [B _]]. rewrite A, B. auto. }
     assert (Hid3 : forall j, In j js -> h_id (getH w3 j) = new).
-    { intros j Hj. unfold w3. rewrite getH_set_fs, HgetH2. unfold w2c.
+    { intros j Hj. unfold w3. rewrite getH_lock_move, getH_set_fs, HgetH2. unfold w2c.
       destruct (set_cached_fields js w2i (c_data c) j) as [_ [_ [C' _]]]. rewrite C'. unfold w2i.
       apply set_ids_in; auto. destruct (Hall j Hj) as [Hlt _]. exact Hlt. }
     assert (E3 : sp_access frepr w3 hl = (w3, inl ci)).
@@ -431,7 +431,7 @@ Section S.
     { destruct (Hh3 hl) as [A _]. rewrite A, Hl_s. unfold wsd, wsp, getS, w3. simpl. rewrite F2. reflexivity. }
     assert (Hlt3 : (hl < length (w_hs w3))%nat) by (unfold w3; simpl; rewrite F5; simpl; exact Hl_lt).
     assert (Hd3 : c_data (getC w3 ci) = c_data c).
-    { unfold w3. rewrite getC_set_fs. unfold getC. rewrite F3. reflexivity. }
+    { unfold w3. rewrite getC_lock_move, getC_set_fs. unfold getC. rewrite F3. reflexivity. }
     pose proof (init_writes frepr w3 hl w3 ci (c_data c) Hlt3 E3 Hd3) as IW.
     cbv zeta in IW. rewrite (Hid3 hl Hl_in), Hws3 in IW. fold dst in IW.
     change (w_fs w3) with f3 in IW.
@@ -508,10 +508,10 @@ Section S.
       rewrite Hq1. apply Hout. exact Hq1.
     - intros j Hj. destruct (Hids j) as [A [B _]]. rewrite A, B. split; [apply Hid3; exact Hj|].
       destruct (Hh3 j) as [C _]. rewrite C. destruct (Hall j Hj) as [_ [_ D]]. exact D.
-    - intros j Hj. destruct (Hids j) as [_ [_ C]]. rewrite C. unfold w3. rewrite getH_set_fs, HgetH2. unfold w2c.
+    - intros j Hj. destruct (Hids j) as [_ [_ C]]. rewrite C. unfold w3. rewrite getH_lock_move, getH_set_fs, HgetH2. unfold w2c.
       apply set_cached_in; auto. destruct (set_ids_frame js wa new) as [_ [_ [_ [_ A5]]]]. fold w2i in A5.
       rewrite A5. simpl. destruct (Hall j Hj) as [Hlt _]. exact Hlt.
-    - intros k Hk. destruct (Hids k) as [_ [_ C]]. rewrite C. unfold w3. rewrite getH_set_fs, HgetH2. unfold w2c.
+    - intros k Hk. destruct (Hids k) as [_ [_ C]]. rewrite C. unfold w3. rewrite getH_lock_move, getH_set_fs, HgetH2. unfold w2c.
       rewrite set_cached_notin by exact Hk. unfold w2i.
       destruct (set_ids_fields js wa new k) as [_ [_ [D _]]]. rewrite D. reflexivity.
   Qed.
